@@ -87,14 +87,15 @@ Definition doc_comment (docstr : val) : option comment :=
   | _ => let? d := first_of docstr in let? raw := as_str d in Some (Some (raw_comment_to_docstr raw))
   end.
 
-(** the numbering loop of the Enum action *)
-Fixpoint enum_number (vs : list enum_value) (next : Z) : list enum_value :=
+(** the numbering loop of the Enum action (after the repair of the enum-numbering defect): a value
+    without an explicit number is the previous value plus one, the first is 0; explicit numbers
+    are kept.  Go's [int] is 64 bits; overflow of [ev.Value + 1] is not modelled. *)
+Fixpoint enum_number (vs : list (enum_value * bool)) (next : Z) : list enum_value :=
   match vs with
   | [] => []
-  | ev :: t =>
-    let v := if ev_value ev <? 0 then next else ev_value ev in
-    let next' := if next <=? v then v + 1 else next in
-    mkev (ev_comment ev) (ev_name ev) v (ev_anns ev) :: enum_number t next'
+  | (ev, explicit) :: t =>
+    let v := if explicit then ev_value ev else next in
+    mkev (ev_comment ev) (ev_name ev) v (ev_anns ev) :: enum_number t (v + 1)
   end.
 
 Definition set_mod (m : Z) (f : field) : field :=
@@ -202,7 +203,11 @@ Definition run_action_opt (a : action) (srest : bytes) (n : Z) (fr : frame) : op
     let? name := as_ident (g "name"%string) in
     let? anns := to_anns (g "annotations"%string) in
     let? evs := omap (fun v => let? x := first_of v in
-                               match x with VEnumValue e => Some e | _ => None end) vs in
+                               match x with
+                               | VList [VEnumValue e; VBool explicit] => Some (e, explicit)
+                               | VList (VEnumValue e :: VBool explicit :: _) => Some (e, explicit)
+                               | _ => None
+                               end) vs in
     ok (VEnum (mkenum None name (enum_number evs 0) anns))
   | AEnumValue1 =>
     let? name := as_ident (g "name"%string) in
@@ -212,7 +217,8 @@ Definition run_action_opt (a : action) (srest : bytes) (n : Z) (fr : frame) : op
               | VNil => Some (-1)
               | x => let? l := as_list x in let? y := idx l 2 in as_int y
               end in
-    ok (VEnumValue (mkev c name v anns))
+    ok (VList [VEnumValue (mkev c name v anns);
+               VBool (match g "value"%string with VNil => false | _ => true end)])
   | ATypeDef1 =>
     let? name := as_ident (g "name"%string) in
     let? typ := as_type (g "typ"%string) in
